@@ -26,7 +26,7 @@ inductive Item
 
 def ofEv : DecProg.Ev → Item
   | .def_ h a m f d => .def_ h a m f d
-  | .msg h _ _ _ => .data h
+  | .msg h _ _ _ _ _ => .data h
   | .seq .. => .seqEnd
 
 /-- a definition segment of the raw decoder, read as the protocol lays it out -/
@@ -70,7 +70,7 @@ theorem sizes_triplets (b : Bytes) : sizes (DecProg.triplets b) = Raw.sizeSum b 
 /-- the decoder's `decodeFields` on the exact reader (checksum off): it consumes exactly the sum of the sizes, whatever
 the sizes (0: skipped) — or the run ends with an error -/
 theorem fields_wp (Φ : DecProg.Out × Bytes → Prop) (hfail : ∀ o fin, o.status ≠ none → Φ (o, fin))
-    (fs : List Triplet) : ∀ (st : DecProg.St) (acc : List (Nat × Nat)) (k : DecProg.St → List (Nat × Nat) → DecProg.P) (rest : Bytes),
+    (fs : List Triplet) : ∀ (st : DecProg.St) (acc : List (Nat × Bytes)) (k : DecProg.St → List (Nat × Bytes) → DecProg.P) (rest : Bytes),
     (sizes fs ≤ rest.length → ∀ st' acc', st'.evs = st.evs → st'.defs = st.defs → st'.cur = st.cur + sizes fs →
         st'.descs = st.descs → st'.msgs = st.msgs → Φ (runExactR (k st' acc') (rest.drop (sizes fs)))) →
     Φ (runExactR (DecProg.fields false fs st acc k) rest) := by
@@ -104,7 +104,7 @@ theorem fields_wp (Φ : DecProg.Out × Bytes → Prop) (hfail : ∀ o fin, o.sta
         exact this
 
 theorem devFields_wp (Φ : DecProg.Out × Bytes → Prop) (hfail : ∀ o fin, o.status ≠ none → Φ (o, fin))
-    (descs : List Triplet) (fs : List Triplet) : ∀ (st : DecProg.St) (cnt : Nat) (k : DecProg.St → Nat → DecProg.P) (rest : Bytes),
+    (descs : List Triplet) (fs : List Triplet) : ∀ (st : DecProg.St) (cnt : List (Nat × Nat × Bytes)) (k : DecProg.St → List (Nat × Nat × Bytes) → DecProg.P) (rest : Bytes),
     (sizes fs ≤ rest.length → ∀ st' cnt', st'.evs = st.evs → st'.defs = st.defs → st'.cur = st.cur + sizes fs →
         st'.descs = st.descs → st'.msgs = st.msgs → Φ (runExactR (k st' cnt') (rest.drop (sizes fs)))) →
     Φ (runExactR (DecProg.devFields false descs fs st cnt k) rest) := by
@@ -117,8 +117,8 @@ theorem devFields_wp (Φ : DecProg.Out × Bytes → Prop) (hfail : ∀ o fin, o.
     obtain ⟨num, size, ddi⟩ := t
     rw [sizes_cons] at h
     simp only at h
-    have hread : ∀ (cnt' : Nat), Φ (runExactR (DecProg.rdN false size st fun _ st => DecProg.devFields false descs fs st cnt' k) rest) := by
-      intro cnt'
+    have hread : ∀ (g : Bytes → List (Nat × Nat × Bytes)), Φ (runExactR (DecProg.rdN false size st fun b st => DecProg.devFields false descs fs st (g b) k) rest) := by
+      intro g
       simp only [DecProg.rdN]
       rw [Raw.run_read]
       split
@@ -132,7 +132,7 @@ theorem devFields_wp (Φ : DecProg.Out × Bytes → Prop) (hfail : ∀ o fin, o.
         exact this
     simp only [DecProg.devFields]
     split
-    · exact hread cnt
+    · exact hread (fun _ => cnt)
     · split
       · simp only [runExactR]; exact hfail _ _ (by simp [DecProg.fail])
       · split
@@ -142,7 +142,7 @@ theorem devFields_wp (Φ : DecProg.Out × Bytes → Prop) (hfail : ∀ o fin, o.
           intro hl st' c' h1 h2 h3 h4 h5
           have := h (by omega) st' c' h1 h2 (by omega) h4 h5
           simpa using this
-        · exact hread (cnt + 1)
+        · exact hread (fun b => cnt ++ [(num, ddi, b)])
 
 def isSeq : DecProg.Ev → Bool
   | .seq .. => true
@@ -248,8 +248,8 @@ theorem lookup_congr {st st' : DecProg.St} (h : st'.defs = st.defs) (i : Nat) : 
 
 theorem seqCount_def (evs : List DecProg.Ev) (h a m : Nat) (f d : List Triplet) :
     seqCount (.def_ h a m f d :: evs) = seqCount evs := by simp [seqCount, isSeq]
-theorem seqCount_msg (evs : List DecProg.Ev) (h m a b : Nat) :
-    seqCount (.msg h m a b :: evs) = seqCount evs := by simp [seqCount, isSeq]
+theorem seqCount_msg (evs : List DecProg.Ev) (h m a b : Nat) (p : List (Nat × Bytes)) (q : List (Nat × Nat × Bytes)) :
+    seqCount (.msg h m a b p q :: evs) = seqCount evs := by simp [seqCount, isSeq]
 
 theorem messages_agree (ds : Nat) (fuel : Nat) : ∀ (std : DecProg.St) (str : Raw.St) (lens : Raw.Lens) (used : Nat) (rest : Bytes)
     (kd : DecProg.St → DecProg.P) (kr : Raw.St → Raw.P),
@@ -377,7 +377,7 @@ theorem messages_agree (ds : Nat) (fuel : Nat) : ∀ (std : DecProg.St) (str : R
           simp only
           refine fields_wp (fun rd => Agree rd _) (fun o fin hs => agree_fail o fin _ hs) d.fields _ _ _ rest1 ?_
           intro hl st' acc' e1 e2 e3 e4 e5
-          refine devFields_wp (fun rd => Agree rd _) (fun o fin hs => agree_fail o fin _ hs) _ d.devFields _ 0 _ _ ?_
+          refine devFields_wp (fun rd => Agree rd _) (fun o fin hs => agree_fail o fin _ hs) _ d.devFields _ [] _ _ ?_
           intro hl2 st'' nd f1 f2 f3 f4 f5
           rw [List.length_drop] at hl2
           have hne : ¬ (Raw.Lens.get lens (Raw.localMesgNum h) = 0) := by omega
